@@ -17,7 +17,14 @@ Four workloads, all executing the real pyxel code on files the harness writes it
                  relative to the current directory, relative to the 'working_directory' option
                  (set through pyxel.set_options and through the running mode, str and Path, plain
                  and in sub-folders, also switched between two directories from run to run),
-                 absolute while an unrelated working directory is set, and '~/...'.
+                 absolute while an unrelated working directory is set, and '~/...'.  Besides the loading
+                 models, the models of the library that *use* a file on the content of the detector
+                 (load_psf kernel, fixed_pattern_noise map, conversion_with_qe_map map) run after every
+                 rewrite: their result must equal the result of the same model on a copy of the present
+                 content under a never-used name (and, for the two maps, detector content x placement).
+
+FITS files are written in the layouts a single image comes in: primary HDU, or an IMAGE extension behind
+an empty primary HDU, each with or without a binary-table extension behind it.
 
 The oracles (``oracle_*``) use numpy only -- no pyxel import, no slicing arithmetic shared with
 the implementation (gather through index arrays).
@@ -38,7 +45,8 @@ TECHNIQUE = ("runtime monitoring: harness-written input files and generated plac
              "loaders / fit_into_array / loading models, compared with an independent pixel-by-pixel placement "
              "oracle and with the arrays that were written")
 RULE = ("file round trips: arrays 1x1..9x9 (25% one-row, 25% one-column, a few large up to 200x300), int and "
-        "float values (text with repr()/%.17g), formats npy / FITS image / FITS table / .txt .data .csv with tab, "
+        "float values (text with repr()/%.17g), formats npy / FITS image (in the primary HDU or in an IMAGE "
+        "extension behind an empty primary HDU, with or without a table extension) / FITS table / .txt .data .csv with tab, "
         "space, comma, bar, semicolon (and comma+blank); non-trivial = more than one element. placements: "
         "fit_into_array for every (input shape, output shape) up to the bound, every offset from -(size+1) to "
         "out+1 in both axes, the five alignment keywords, allow_smaller_array on/off; random larger ones also "
@@ -48,7 +56,8 @@ RULE = ("file round trips: arrays 1x1..9x9 (25% one-row, 25% one-column, a few l
         "different shape, same byte size), in-place and rename rewrites, the path spelled absolute / relative to "
         "the current directory / relative to the working_directory option (str or Path, with and without "
         "sub-folder, also alternating between two working directories) / absolute under an unrelated working "
-        "directory / with '~'. distinct = distinct case signatures")
+        "directory / with '~'; after every rewrite also the file-using models load_psf, fixed_pattern_noise and "
+        "conversion_with_qe_map against their own run on a fresh copy of the content. distinct = distinct case signatures")
 ASSUMPTIONS = [
     "the file system records a new modification time for a rewritten file (the harness re-writes until "
     "st_mtime_ns differs from the previous version; same-size rewrites with a forcibly restored mtime are not driven)",
@@ -58,6 +67,11 @@ ASSUMPTIONS = [
     "allow_smaller_array=False is a documented refusal: whether it refuses is counted, not judged; whatever is "
     "returned must still obey the placement rule",
     "xlsx, image formats (png/jpg/...), HDF5 and remote URLs are not driven",
+    "a FITS file holds exactly one image (primary HDU, or first extension when the primary HDU has no data); files "
+    "with several images, where 'the image' is a matter of convention, are not driven",
+    "file-using models are deterministic functions of (content of the detector, file content, arguments): the run "
+    "on a never-used copy of the file is the reference for the run on the rewritten path; stochastic or heavy "
+    "file-using models (cosmix spectra, persistence maps, wavelength-dependent PSF/QE cubes) are not driven",
     "a relative file name designates the file below the 'working_directory' option when one is set and below the "
     "current directory otherwise; an absolute name is not affected by the option (documented behaviour of the option)",
     "a name starting with '~/' designates the file below $HOME (the loaders expand it); it is driven without a "
@@ -70,6 +84,8 @@ REQUIRED_COUNTERS = [
     "model_nonoverlap_rejected", "stale_reloads_checked", "stale_rewrites",
     "stale_reloads_absolute", "stale_reloads_cwd-relative", "stale_reloads_workdir-relative",
     "stale_reloads_workdir-switch", "stale_reloads_workdir-absolute", "stale_reloads_home-relative",
+    "stale_model_reloads_load_psf", "stale_model_reloads_fixed_pattern_noise",
+    "stale_model_reloads_conversion_with_qe_map", "stale_model_placements_checked",
 ]
 TIMEOUT = {"quick": 600, "thorough": 3000}
 
@@ -248,11 +264,21 @@ def write_bytes_of(fmt, arr, **kw):
             np.save(fh, arr)
 
     def w_fits(path):
+        # A FITS file holds its image in the primary HDU or -- the multi-extension layout of most
+        # observatory pipelines -- in an IMAGE extension behind a primary HDU without data; a binary
+        # table (catalogue, bad-pixel list ...) may follow.  Every layout written here holds ONE image.
         from astropy.io import fits
-        hdu = fits.PrimaryHDU(arr)
-        for key, val in (kw.get("cards") or {}).items():
-            hdu.header[key] = val
-        hdu.writeto(path, overwrite=True)
+        layout = kw.get("layout") or "primary"
+        image_hdu = fits.PrimaryHDU(arr) if layout.startswith("primary") else fits.ImageHDU(arr, name="SCI")
+        hdus = [image_hdu] if layout.startswith("primary") else [fits.PrimaryHDU(), image_hdu]
+        for hdu in hdus:
+            for key, val in (kw.get("cards") or {}).items():
+                hdu.header[key] = val
+        if layout.endswith("+table"):
+            hdus.append(fits.BinTableHDU.from_columns(
+                [fits.Column(name="ID", format="J", array=np.arange(3, dtype=np.int32)),
+                 fits.Column(name="FLUX", format="D", array=np.array([1.5, 2.5, 3.5]))], name="CAT"))
+        fits.HDUList(hdus).writeto(path, overwrite=True)
 
     def w_fits_table(path):
         from astropy.table import Table
@@ -292,6 +318,18 @@ def write_version(path, writer, how, rec=None, avoid=None):
     raise RuntimeError("file system does not record distinct modification times")
 
 
+FITS_LAYOUTS = ["primary", "extension", "primary+table", "extension+table"]
+
+
+def rand_fits_layout(rng):
+    """Where the (single) image of a FITS file is stored: half of the files use the primary HDU."""
+    return rng.choice(["primary", "primary", "primary+table", "extension", "extension", "extension+table"])
+
+
+def fits_label(layout):
+    return "fits" if layout.startswith("primary") else "fits-extension"
+
+
 def as_arg(path, rng):
     """File names are given as str or as pathlib.Path."""
     if rng.random() < 0.4:
@@ -302,7 +340,8 @@ def as_arg(path, rng):
 
 # ====================================================================== round trips
 TEXT_FORMATS = [(suffix, d) for suffix in (".txt", ".data", ".csv") for d in DELIMS]
-RT_FORMATS = ([("npy", None)] * 3 + [("fits", None)] * 3 + [("fits_table", None)] * 2
+RT_FORMATS = ([("npy", None)] * 3 + [("fits", lay) for lay in ("primary", "extension", "primary", "extension+table",
+                                                                  "primary+table")] + [("fits_table", None)] * 2
               + [("text", sd) for sd in TEXT_FORMATS] + [("text", (".txt", "comma_space")), ("text", (".csv", "comma_space"))]
               + [("npy_upper", None), ("fits_upper", None), ("text", (".TXT", "tab")), ("text", (".CSV", "comma"))])
 BIN_DTYPES = ["float64", "float64", "float32", "int16", "int32", "int64", "uint8", "uint16", ">f8", ">i4"]
@@ -369,10 +408,13 @@ def run_roundtrip(spec, rec):
             cards = {"EXPTIME": rng.choice([12.5, 0.001, 300.0]), "OBJECT": rng.choice(["abc", "NGC 42", "flat"]),
                      "NREADS": rng.randint(1, 99), "VFFLAG": rng.random() < 0.5}
             path = name + (".FITS" if upper else ".fits")
-            write_bytes_of("fits", arr, cards=cards)(path)
+            layout = extra or rand_fits_layout(rng)
+            write_bytes_of("fits", arr, cards=cards, layout=layout)(path)
             loaders = ["load_image", "load_header"]
-            label = "fits"
+            label = fits_label(layout)
             case["dtype"] = str(arr.dtype)
+            case["fits_layout"] = layout
+            rec.observe("rt_fits_layouts", layout)
         elif base == "fits_table":
             dtype = rng.choice(["int16", "int32", "int64", "uint8"]) if kind == "int" else rng.choice(["float64", "float32"])
             arr = gen_array(rng, shape, kind, dtype)
@@ -414,11 +456,11 @@ def run_roundtrip(spec, rec):
             if loader == "load_header":
                 rec.count("rt_load_header_checked")
                 if header is None:
-                    rec.violation("C20:load_header:fits:none-returned", "no header for a FITS file", case, i)
+                    rec.violation(f"C20:load_header:{label}:none-returned", "no header for a FITS file", case, i)
                     continue
                 for key, val in cards.items():
                     if key not in header or header[key] != val:
-                        rec.violation("C20:load_header:fits:card-differs",
+                        rec.violation(f"C20:load_header:{label}:card-differs",
                                       f"card {key}: written {val!r}, read {header.get(key)!r}", case, i)
                         break
                 continue
@@ -583,8 +625,10 @@ def run_place_rand(spec, rec):
             fmt = rng.choice(["npy", "npy", "fits", "text"])
             dname = rng.choice(list(DELIMS))
             path = os.path.join(rec.tmp, f"pl_{i}" + {"npy": ".npy", "fits": ".fits", "text": rng.choice([".txt", ".data"])}[fmt])
-            write_bytes_of(fmt, inp, sep=DELIMS[dname])(path)
-            case["file_format"] = fmt if fmt != "text" else f"text-{dname}"
+            layout = rand_fits_layout(rng) if fmt == "fits" else None
+            write_bytes_of(fmt, inp, sep=DELIMS[dname], layout=layout)(path)
+            case["file_format"] = fits_label(layout) if layout else fmt if fmt != "text" else f"text-{dname}"
+            rec.observe("place_file_formats", case["file_format"])
             arg = as_arg(path, rng)
             kwargs = {"shape": tuple(out_shape), "filename": arg}
             if align:
@@ -663,8 +707,9 @@ def model_write_input(rec, rng, stem, inp):
     fmt = rng.choice(["npy", "npy", "fits", "text"])
     dname = rng.choice(list(DELIMS))
     path = os.path.join(rec.tmp, stem + {"npy": ".npy", "fits": ".fits", "text": rng.choice([".txt", ".data"])}[fmt])
-    write_bytes_of(fmt, inp, sep=DELIMS[dname])(path)
-    return path, (fmt if fmt != "text" else f"text-{dname}")
+    layout = rand_fits_layout(rng) if fmt == "fits" else None
+    write_bytes_of(fmt, inp, sep=DELIMS[dname], layout=layout)(path)
+    return path, (fits_label(layout) if layout else fmt if fmt != "text" else f"text-{dname}")
 
 
 def run_model(spec, rec):
@@ -827,12 +872,20 @@ def stale_versions(rng, fmt, n_versions):
     """Arrays of the successive versions and the relation of each to its predecessor."""
     base_shape = rand_shape(rng, 1, 7)
     arrays, relations = [], []
-    value_kind = "posint3" if fmt == "text" else rng.choice(["posfloat", "distinct", "posint3"])
+    # 'unit*': values in (0, 1) -- what a quantum-efficiency map, a PRNU map or a PSF kernel holds
+    value_kind = rng.choice(["posint3", "unit3"]) if fmt == "text" \
+        else rng.choice(["posfloat", "distinct", "posint3", "unit", "unit"])
 
     def make(shape):
         if value_kind == "posint3":   # three-digit values: same shape => same size in bytes also as text
             return np.array([[rng.randint(100, 999) for _ in range(shape[1])] for _ in range(shape[0])],
                             dtype=np.float64 if fmt != "text" else np.int64)
+        if value_kind == "unit3":     # 0.ddd with a non-zero last digit: five characters each
+            return np.array([[(10 * rng.randint(10, 99) + rng.randint(1, 9)) / 1000.0 for _ in range(shape[1])]
+                             for _ in range(shape[0])], dtype=np.float64)
+        if value_kind == "unit":
+            return np.array([[rng.uniform(0.01, 0.99) for _ in range(shape[1])] for _ in range(shape[0])],
+                            dtype=np.float64)
         return gen_array(rng, shape, value_kind, np.float64)
 
     shape = base_shape
@@ -904,8 +957,9 @@ def run_stale(spec, rec):
     from pyxel.exposure import Exposure, Readout
     from pyxel.inputs import load_image as in_load_image
     from pyxel.inputs import load_table as in_load_table
-    from pyxel.models.charge_generation import load_charge
-    from pyxel.models.photon_collection import load_image
+    from pyxel.models.charge_collection import fixed_pattern_noise
+    from pyxel.models.charge_generation import conversion_with_qe_map, load_charge
+    from pyxel.models.photon_collection import load_image, load_psf
     from pyxel.util import load_cropped_and_aligned_image
 
     for i in range(spec["n"]):
@@ -940,6 +994,9 @@ def run_stale(spec, rec):
         sub = rng.choice(["", "", "in", "data/maps"])
         rel = os.path.join(sub, f"st_{i}{suffix}")
         rel_other = os.path.join(sub, f"st_{i}_other{suffix}")
+        # content of the detector before a model that *uses* the file (kernel, map) runs
+        pre_state = np.array([[rng.uniform(1.0, 100.0) for _ in range(cols)] for _ in range(rows)])
+        normalize = rng.random() < 0.5
         for d in (os.path.join(dir_a, sub), os.path.join(dir_b, sub), dir_idle):
             os.makedirs(d, exist_ok=True)
         wd_as_path = rng.random() < 0.4
@@ -971,14 +1028,17 @@ def run_stale(spec, rec):
                 "naming": naming, "file_name_given": name.replace(rec.tmp, "<tmp>"), "subfolder": sub,
                 "file_name_type": type(arg).__name__,
                 "working_directory_type": ("Path" if wd_as_path else "str") if working_directory(0) else None}
+        layouts = [rand_fits_layout(rng) if fmt == "fits" else None for _ in arrays]
+        if fmt == "fits":
+            case["fits_layouts"] = layouts
         other_arr = gen_array(rng, rand_shape(rng, 1, 7), "distinct")
         if not use_align:
             other_arr = gen_array(rng, (max(min_h, other_arr.shape[0]), max(min_w, other_arr.shape[1])), "distinct")
         for d in {location(0), location(1)}:
-            write_bytes_of(fmt, other_arr, sep=DELIMS[dname])(os.path.join(d, rel_other))
+            write_bytes_of(fmt, other_arr, sep=DELIMS[dname], layout=layouts[0])(os.path.join(d, rel_other))
         if naming == "workdir-absolute":
             # same relative name below the working directory, other content: an absolute name must not end there
-            write_bytes_of(fmt, other_arr + 1000, sep=DELIMS[dname])(os.path.join(dir_b, rel))
+            write_bytes_of(fmt, other_arr + 1000, sep=DELIMS[dname], layout=layouts[0])(os.path.join(dir_b, rel))
 
         def offsets_of(arr):
             return oracle_align_offsets(align, arr.shape, out_shape) if align else [position]
@@ -1026,6 +1086,41 @@ def run_stale(spec, rec):
                     "model-load_charge": (c_model_charge, time_step / time_scale),
                     "pipeline-load_image": (c_pipeline, time_step / time_scale)}
 
+        def file_models():
+            """Models of the library that *use* an input file (kernel, map) on the content of the detector:
+            name -> callable(file name) returning the bucket the model wrote."""
+            def fresh_detector():
+                det = build.make_detector(dspec)
+                det.set_readout(times=[1.0])
+                det.time_step = time_step
+                return det
+
+            def m_load_psf(fname):
+                det = fresh_detector()
+                det.photon.array = pre_state.copy()
+                load_psf(det, filename=fname, normalize_kernel=normalize)
+                return np.array(det.photon.array)
+
+            def m_fixed_pattern_noise(fname):
+                det = fresh_detector()
+                det.pixel.array = pre_state.copy()
+                fixed_pattern_noise(det, filename=fname, **place_kw)
+                return np.array(det.pixel.array)
+
+            def m_qe_map(fname):
+                det = fresh_detector()
+                det.photon.array = pre_state.copy()
+                conversion_with_qe_map(det, filename=fname, binomial_sampling=False, **place_kw)
+                return np.array(det.charge.array)
+
+            return {"load_psf": m_load_psf, "fixed_pattern_noise": m_fixed_pattern_noise,
+                    "conversion_with_qe_map": m_qe_map}
+
+        # models whose result is  content of the detector x placement of the file  (independent oracle)
+        PLACED = {"fixed_pattern_noise", "conversion_with_qe_map"}
+        fmodels = file_models()
+        refs = {m: [] for m in fmodels}     # per model: result on a never-used copy of every version (or None)
+
         chosen = ["load_cropped_and_aligned_image", "model-load_image", "model-load_charge"]
         if i % 2 == 0:
             chosen.append("pipeline-load_image")
@@ -1035,8 +1130,8 @@ def run_stale(spec, rec):
             with process_dirs(cwd=dir_a if naming == "cwd-relative" else dir_idle,
                               home=dir_a if naming == "home-relative" else None):
                 for v, arr in enumerate(arrays):
-                    write_version(os.path.join(location(v), rel), write_bytes_of(fmt, arr, sep=DELIMS[dname]), how, rec,
-                                  avoid=seen_mtimes)
+                    writer = write_bytes_of(fmt, arr, sep=DELIMS[dname], layout=layouts[v])
+                    write_version(os.path.join(location(v), rel), writer, how, rec, avoid=seen_mtimes)
                     wd = working_directory(v)
                     cons = consumers(wd)
                     if v:
@@ -1064,6 +1159,57 @@ def run_stale(spec, rec):
                             exp = oracle_place(arr, out_shape, *offsets_of(arr)[0]) * factor
                             rec.violation(f"C20:stale:{cname}:wrong-content" + mech_class,
                                           f"version {v} ({relations[v]}): {first_difference(got, exp)}", case, i)
+                    # ---- models that use the file: the run on the rewritten path must equal the run of the same
+                    # model on a copy of the file's present content under a name never used before (no history)
+                    rel_fresh = os.path.join(sub, f"st_{i}_copy{v}{suffix}")
+                    writer(os.path.join(location(v), rel_fresh))
+                    fresh = spelled(rel_fresh)
+                    for mname, fn in fmodels.items():
+                        given = arg if mname != "fixed_pattern_noise" else name
+                        with pyxel.set_options(working_directory=wd):
+                            try:
+                                ref = fn(type(given)(fresh))
+                            except Exception:  # noqa: BLE001
+                                ref = None     # the model refuses this content (e.g. a QE map above 1)
+                            try:
+                                got = fn(given)
+                            except Exception:  # noqa: BLE001
+                                if ref is not None:
+                                    raise
+                                got = None
+                        refs[mname].append(ref)
+                        if ref is None and got is None:
+                            rec.count("stale_model_content_refused")
+                            continue
+                        rec.count("stale_model_runs_checked")
+                        observable = v > 0 and (ref is None or refs[mname][v - 1] is None
+                                                or not close(ref, refs[mname][v - 1]))
+                        if observable:
+                            rec.count(f"stale_model_reloads_{mname}")
+                        ok = ref is not None and close(got, ref)
+                        if ok and mname in PLACED:
+                            rec.count("stale_model_placements_checked")
+                            if not any(close(got, pre_state * oracle_place(arr, out_shape, oy, ox))
+                                       for oy, ox in offsets_of(arr)):
+                                exp = pre_state * oracle_place(arr, out_shape, *offsets_of(arr)[0])
+                                rec.violation(f"C20:model-{mname}:bucket-differs" + mech_class,
+                                              f"{mname}: bucket != content of the detector x placement of the file: "
+                                              f"{first_difference(got, exp)}", case, i)
+                            continue
+                        if ok:
+                            continue
+                        old = [u for u in range(v) if refs[mname][u] is not None and close(got, refs[mname][u])]
+                        if old:
+                            rec.violation(f"C20:model-{mname}:earlier-version-of-file-used" + mech_class,
+                                          f"{mname}: file named {naming} ({case['file_name_given']!r}); after rewriting "
+                                          f"it ({relations[v]}, {how}) the model gives the result of version "
+                                          f"{old[-1]} of the file, not the result it gives on a copy of version {v} "
+                                          f"under a new name", case, i)
+                        else:
+                            rec.violation(f"C20:stale:model-{mname}:differs-from-run-on-fresh-copy" + mech_class,
+                                          f"{mname}, version {v} ({relations[v]}): the same content under a new name "
+                                          f"gives another result"
+                                          + ("" if ref is None else f": {first_difference(got, ref)}"), case, i)
                     with pyxel.set_options(working_directory=wd):
                         # the plain loaders on the rewritten path
                         got = in_load_image(arg)
@@ -1106,7 +1252,7 @@ def run_shard(spec, rec):
      "model": run_model, "stale": run_stale}[spec["kind"]](spec, rec)
 
 
-EXPECTED_IMAGE_FORMATS = {"npy", "fits"} | {f"text-{d}" for d in DELIMS}
+EXPECTED_IMAGE_FORMATS = {"npy", "fits", "fits-extension"} | {f"text-{d}" for d in DELIMS}
 EXPECTED_TABLE_FORMATS = {"npy", "fits-table"} | {f"text-{d}" for d in DELIMS}
 
 
@@ -1118,6 +1264,9 @@ def finalize(counters, sets, tier):
     miss = EXPECTED_TABLE_FORMATS - set(sets.get("rt_formats_load_table", []))
     if miss:
         out.append(f"load_table never observed on formats {sorted(miss)}")
+    miss = set(FITS_LAYOUTS) - set(sets.get("rt_fits_layouts", []))
+    if miss:
+        out.append(f"FITS layouts never read back: {sorted(miss)}")
     miss = set(ALIGNS) - set(sets.get("place_aligns", []))
     if miss:
         out.append(f"alignment keywords never observed: {sorted(miss)}")
@@ -1165,7 +1314,9 @@ LEVEL_TEXT = ("Exploration by runtime monitoring: hundreds (quick) to thousands 
               "placement oracle, random larger placements also through load_cropped_and_aligned_image; the real "
               "load_image / load_charge models run directly and through run_mode on real detectors; files are "
               "rewritten between loads of one process, the path being given absolute, relative to the current directory "
-              "and relative to the working_directory option. Held = on the executions observed.")
+              "and relative to the working_directory option, and after every rewrite the file-using models (load_psf, "
+              "fixed_pattern_noise, conversion_with_qe_map) are compared with their run on a fresh copy. FITS images "
+              "are written in the primary HDU and in an IMAGE extension. Held = on the executions observed.")
 LEVEL_NOTE = ("Trusted: numpy.save, astropy.io.fits writers and Python's repr()/%.17g float formatting used to write "
               "the inputs; the 25-line placement oracle; the alignment convention copied from the documentation "
               "(pixel (0,0) bottom-left). Not driven: same-size rewrites with an unchanged modification time.")
